@@ -253,7 +253,8 @@ fn find_word_start<'a>(
 ) -> Option<<CharIndices<'a> as Iterator>::Item> {
     char_indices
         .as_str()
-        .starts_with("'n'")
+        .get(..3)
+        .map_or(false, |prefix| prefix.eq_ignore_ascii_case("'n'"))
         .then(|| char_indices.next())
         .unwrap_or_else(|| char_indices.find(|&(_, c)| !is_ignorable_whitespace(c)))
 }
@@ -538,12 +539,15 @@ impl<'a> Lexer<'a> {
         debug_assert!(!text.contains('\n'));
         debug_assert!(text.is_ascii());
         let buf_text = self.substr(start..);
-        buf_text.strip_prefix(text).map(|_| LexResult {
-            token: self.make_token_from(start, text.len(), token_type),
-            end: start + text.len(),
-            newlines: 0,
-            new_line_start: None,
-        })
+        buf_text
+            .get(..text.len())
+            .filter(|prefix| prefix.eq_ignore_ascii_case(text))
+            .map(|_| LexResult {
+                token: self.make_token_from(start, text.len(), token_type),
+                end: start + text.len(),
+                newlines: 0,
+                new_line_start: None,
+            })
     }
 
     fn scan_apostrophe_n_apostrophe(&self, start: usize) -> Option<LexResult<'a>> {
